@@ -225,6 +225,54 @@ fn answer(a: &[&str]) -> String {
             let _ = server.join();
             out
         }
+        // negotiate <promiscuous 0|1> <abstract syntaxes,|-> <transfer syntaxes,|-> <proposed abstract syntax hex> <proposed transfer syntaxes hex,|->
+        //   -> "RESULT <reason number> <accepted transfer syntax hex>" from the A-ASSOCIATE-AC a real acceptor sends over loopback | "RJ" | other
+        "negotiate" => {
+            use dicom_ul::association::server::ServerAssociationOptions;
+            use dicom_ul::pdu::{read_pdu, write_pdu, AssociationRQ, Pdu, PresentationContextProposed, UserVariableItem};
+            use std::io::Read;
+            let promiscuous = a[1] == "1";
+            let cfg_as: Vec<String> = if a[2] == "-" { vec![] } else { a[2].split(',').map(|x| x.to_string()).collect() };
+            let cfg_ts: Vec<String> = if a[3] == "-" { vec![] } else { a[3].split(',').map(|x| x.to_string()).collect() };
+            let abstract_syntax = String::from_utf8(unhex(a[4])).unwrap();
+            let transfer_syntaxes: Vec<String> = if a[5] == "-" { vec![] } else { a[5].split(',').map(|x| String::from_utf8(unhex(x)).unwrap()).collect() };
+            let listener = std::net::TcpListener::bind("127.0.0.1:0").unwrap();
+            let addr = listener.local_addr().unwrap();
+            let server = std::thread::spawn(move || -> String {
+                let (sock, _) = match listener.accept() { Ok(x) => x, Err(e) => return format!("NOACCEPT {}", e) };
+                let mut opts = ServerAssociationOptions::new().accept_any().promiscuous(promiscuous);
+                for x in &cfg_as { opts = opts.with_abstract_syntax(x.clone()); }
+                for x in &cfg_ts { opts = opts.with_transfer_syntax(x.clone()); }
+                match opts.establish(sock) { Ok(mut assoc) => { let _ = assoc.receive(); "SERVED".into() } Err(e) => format!("SERVERERR {}", e).replace(' ', "_") }
+            });
+            let mut sock = std::net::TcpStream::connect(addr).unwrap();
+            sock.set_read_timeout(Some(std::time::Duration::from_secs(5))).ok();
+            let rq = Pdu::AssociationRQ(AssociationRQ {
+                protocol_version: 1, calling_ae_title: "SCU".into(), called_ae_title: "THIS-SCP".into(), application_context_name: "1.2.840.10008.3.1.1.1".into(),
+                presentation_contexts: vec![PresentationContextProposed { id: 7, abstract_syntax, transfer_syntaxes }],
+                user_variables: vec![UserVariableItem::MaxLength(16384), UserVariableItem::ImplementationClassUID("1.2.3.4".into())],
+            });
+            if write_pdu(&mut sock, &rq).is_err() { return "WRITEERR".into(); }
+            let mut buf: Vec<u8> = Vec::new();
+            let mut chunk = [0u8; 4096];
+            let out = loop {
+                let mut cur = &buf[..];
+                match read_pdu(&mut cur, 16_384, false) {
+                    Ok(Some(Pdu::AssociationAC(ac))) => {
+                        let pc = &ac.presentation_contexts[0];
+                        break format!("RESULT {} {} id={}", pc.reason.clone() as u8, hex(pc.transfer_syntax.as_bytes()), pc.id);
+                    }
+                    Ok(Some(Pdu::AssociationRJ(_))) => break "RJ".to_string(),
+                    Ok(Some(other)) => break format!("OTHER {}", other.short_description()).replace(' ', "_"),
+                    Ok(None) => {}
+                    Err(e) => break format!("READERR {}", e).replace(' ', "_"),
+                }
+                match sock.read(&mut chunk) { Ok(0) => break "CLOSED".to_string(), Ok(k) => buf.extend_from_slice(&chunk[..k]), Err(e) => break format!("IOERR {}", e).replace(' ', "_") }
+            };
+            drop(sock);
+            let _ = server.join();
+            out
+        }
         // pdu_big <L>: write an A-ASSOCIATE-RQ holding one unknown user sub-item with L content bytes, then read the bytes back
         "pdu_big" => {
             use dicom_ul::pdu::{read_pdu, write_pdu, AssociationRQ, Pdu, PresentationContextProposed, UserVariableItem};
